@@ -157,3 +157,64 @@ func Gen(r *rng.R) *Case {
 	}
 	return c
 }
+
+// GenHist gives a drawn case a history: the route object exists before the judged request, has
+// served 1–5 other requests (Accept headers from the same grammar), and 1–2 of its produced types
+// got their writer only at some point of that history — mostly after the route had been served.
+// The judged request keeps its Accept header, in half of the cases rewritten to prefer a late type.
+func GenHist(r *rng.R, c *Case) {
+	h := &Hist{}
+	k := 1
+	if r.Chance(1, 4) {
+		k = 2
+	}
+	for _, i := range r.Perm(len(LateFormats))[:k] {
+		l := LateFormats[i]
+		l.Name = l.At(0)
+		h.Late = append(h.Late, l)
+		at := r.Intn(len(c.Produces) + 1)
+		if r.Chance(1, 2) {
+			at = 0 // the type the route prefers
+		}
+		c.Produces = append(c.Produces[:at], append([]string{l.Name}, c.Produces[at:]...)...)
+	}
+	n := 1 + r.Intn(3)
+	if r.Chance(1, 4) {
+		n = 1 + r.Intn(5)
+	}
+	for i := 0; i < n; i++ {
+		t := &Case{}
+		switch x := r.Intn(10); {
+		case x == 0:
+			t.Absent = true
+		case x == 1: // present but empty
+		default:
+			for j, m := 0, 1+r.Intn(3); j < m; j++ {
+				t.Ranges = append(t.Ranges, genRange(r, c.Produces))
+			}
+		}
+		if r.Chance(1, 3) {
+			t.WS1 = r.U64() | 1
+		}
+		h.Traffic = append(h.Traffic, t)
+	}
+	h.RegAt = n
+	if r.Chance(2, 5) {
+		h.RegAt = r.Intn(n + 1)
+	}
+	if !c.Absent && r.Chance(1, 2) {
+		// the judged request names a late type, alone or in front of what it asked for
+		rg := Range{Media: h.Late[r.Intn(len(h.Late))].Name}
+		if r.Chance(1, 2) {
+			c.Ranges = append([]Range{rg}, c.Ranges...)
+		} else {
+			for i := range c.Ranges {
+				if p := c.Ranges[i].Params; len(p) == 0 || p[len(p)-1].Name != "q" {
+					c.Ranges[i].Params = append(p, Param{Name: "q", Val: "0." + digits(r, 1)})
+				}
+			}
+			c.Ranges = append(c.Ranges, rg)
+		}
+	}
+	c.Hist = h
+}
